@@ -212,7 +212,14 @@ def run_cases_parallel(pid, cases, opts, procs, verbose=False):
                     r = _dead(c, f"worker died (exit code {p.exitcode})", time.time() - t0)
                 p.join(5)
             elif not p.is_alive():
-                r = _dead(c, f"worker died (exit code {p.exitcode})", time.time() - t0)
+                # the child may have sent its result and exited between the two tests above
+                if conn.poll(0.5):
+                    try:
+                        r = conn.recv()
+                    except EOFError:
+                        r = None
+                if r is None:
+                    r = _dead(c, f"worker died (exit code {p.exitcode})", time.time() - t0)
             elif time.time() - t0 > limit:
                 p.kill()
                 p.join(5)
